@@ -248,6 +248,14 @@ func tryDec(c *engine.Ctx, d *decoder, b []byte, src string) {
 	if string(exact) != string(b) || string(slack0[:n]) != string(b) {
 		c.Note("decoder-wrote-into-its-input:" + d.name)
 	}
+	// the memory behind the slice is somebody else's (the next payload of the chain, the rest of a receive buffer):
+	// it must come back exactly as it was
+	for i := n; i < len(slackF); i++ {
+		if slackF[i] != 0xff || slack0[i] != 0 {
+			c.Violate("write-behind-slice/"+d.name, fmt.Sprintf("%s on %d octets (%s): octet %d behind the end of the slice was overwritten (spare capacity of the caller's buffer)", d.name, n, src, i-n), cs())
+			return
+		}
+	}
 	if !o[0].err {
 		c.Count("accepted", 1)
 		c.DistinctS(d.name + "|" + o[0].v)
